@@ -44,7 +44,7 @@ func (s *State) assume(c *Ctx, t Term) {
 	if t.IsTrue() {
 		return
 	}
-	s.Reach = c.define("reach", And(s.Reach, t))
+	s.Reach = c.reachAnd(s.Reach, t)
 }
 
 // heapGet returns the current term of a heap map.
@@ -77,7 +77,12 @@ func (c *Ctx) mergeStates(ins []*State) *State {
 	for _, s := range ins {
 		reaches = append(reaches, s.Reach)
 	}
-	out.Reach = c.define("reach", Or(reaches...))
+	out.Reach = c.reachOr(reaches)
+	var allocs []Term
+	for _, s := range ins {
+		allocs = append(allocs, s.Alloc)
+	}
+	out.Alloc = c.define("alloc", c.iteChain(reaches, allocs))
 	// heap keys
 	keys := map[string]bool{}
 	for _, s := range ins {
@@ -112,7 +117,7 @@ func (c *Ctx) mergeStates(ins []*State) *State {
 		for _, s := range ins {
 			vals = append(vals, c.heapGet(s, k, sortOf))
 		}
-		out.Heap[k] = c.define("heap", c.iteChain(reaches, vals))
+		c.setHeap(out, k, c.define("heap", c.iteChain(reaches, vals)))
 	}
 	// cells
 	cells := map[*Cell]bool{}
@@ -144,11 +149,6 @@ func (c *Ctx) mergeStates(ins []*State) *State {
 			out.Cells[cell] = merged
 		}
 	}
-	var allocs []Term
-	for _, s := range ins {
-		allocs = append(allocs, s.Alloc)
-	}
-	out.Alloc = c.define("alloc", c.iteChain(reaches, allocs))
 	// defers: keep the longest common prefix property simple: require equality
 	out.Defers = append([]deferRec(nil), ins[0].Defers...)
 	for _, s := range ins[1:] {
@@ -193,6 +193,10 @@ func (c *Ctx) newShapePtr(sh *PtrShape, prefix string) Term {
 func (c *Ctx) load(s *State, sh *PtrShape) []Term {
 	n := len(layout(sh.Typ))
 	out := make([]Term, n)
+	bounds := make([]Term, n)
+	for i := range bounds {
+		bounds[i] = s.Alloc
+	}
 	switch sh.Kind {
 	case pLocal:
 		v, ok := s.Cells[sh.Cell]
@@ -206,6 +210,7 @@ func (c *Ctx) load(s *State, sh *PtrShape) []Term {
 		for k := 0; k < n; k++ {
 			key := objKey(sh.Root, sh.Off+k)
 			h := c.heapGet(s, key, c.heapSort(key, lay[sh.Off+k]))
+			bounds[k] = c.allocBound(s, h)
 			out[k] = Select(h, sh.Ref)
 		}
 	case pElem:
@@ -223,6 +228,7 @@ func (c *Ctx) load(s *State, sh *PtrShape) []Term {
 		for k := 0; k < n; k++ {
 			key := arrKey(sh.Root, sh.Off+k)
 			h := c.heapGet(s, key, c.heapSort(key, lay[sh.Off+k]))
+			bounds[k] = c.allocBound(s, h)
 			out[k] = Select(Select(h, sh.Ref), sh.Idx)
 		}
 	}
@@ -234,7 +240,7 @@ func (c *Ctx) load(s *State, sh *PtrShape) []Term {
 			c.addFact(typeInv(sh.Typ, out))
 		} else {
 			s.assume(c, typeInv(sh.Typ, out))
-			s.assume(c, refsBelow(sh.Typ, out, s.Alloc))
+			s.assume(c, refsBelowEach(sh.Typ, out, bounds))
 		}
 	}
 	return out
@@ -259,7 +265,7 @@ func (c *Ctx) store(s *State, sh *PtrShape, vals []Term) {
 		for k := 0; k < n; k++ {
 			key := objKey(sh.Root, sh.Off+k)
 			h := c.heapGet(s, key, c.heapSort(key, lay[sh.Off+k]))
-			s.Heap[key] = c.define("heap", Store(h, sh.Ref, vals[k]))
+			c.setHeap(s, key, c.define("heap", Store(h, sh.Ref, vals[k])))
 		}
 	case pElem:
 		if arr, ok := sh.Typ.Underlying().(*types.Array); ok && !types.Identical(sh.Typ, sh.Root) {
@@ -276,7 +282,7 @@ func (c *Ctx) store(s *State, sh *PtrShape, vals []Term) {
 			key := arrKey(sh.Root, sh.Off+k)
 			h := c.heapGet(s, key, c.heapSort(key, lay[sh.Off+k]))
 			inner := Store(Select(h, sh.Ref), sh.Idx, vals[k])
-			s.Heap[key] = c.define("heap", Store(h, sh.Ref, inner))
+			c.setHeap(s, key, c.define("heap", Store(h, sh.Ref, inner)))
 		}
 	}
 }
@@ -305,7 +311,7 @@ func (c *Ctx) allocArray(s *State, elem types.Type) Term {
 		key := arrKey(elem, k)
 		h := c.heapGet(s, key, c.heapSort(key, lay[k]))
 		konst := Term{fmt.Sprintf("((as const %s) %s)", ArrSort(SInt, lay[k].Sort), z[k].S), ArrSort(SInt, lay[k].Sort)}
-		s.Heap[key] = c.define("heap", Store(h, r, konst))
+		c.setHeap(s, key, c.define("heap", Store(h, r, konst)))
 	}
 	return r
 }
@@ -322,5 +328,23 @@ func (c *Ctx) setArrContents(s *State, elem types.Type, k int, base Term, arr Te
 	lay := layout(elem)
 	key := arrKey(elem, k)
 	h := c.heapGet(s, key, c.heapSort(key, lay[k]))
-	s.Heap[key] = c.define("heap", Store(h, base, arr))
+	c.setHeap(s, key, c.define("heap", Store(h, base, arr)))
+}
+
+// setHeap installs a new version of a heap map and remembers the allocation
+// frontier at its creation: every reference stored in that version denotes an
+// object allocated before.
+func (c *Ctx) setHeap(s *State, key string, t Term) {
+	s.Heap[key] = t
+	if _, ok := c.heapAlloc[t.S]; !ok {
+		c.heapAlloc[t.S] = s.Alloc
+	}
+}
+
+// allocBound: the frontier below which references read from heap version h lie.
+func (c *Ctx) allocBound(s *State, h Term) Term {
+	if a, ok := c.heapAlloc[h.S]; ok {
+		return a
+	}
+	return s.Alloc
 }
